@@ -272,10 +272,10 @@ func (ex *Exec) tryIfConvert(fr *frame, instr *ssa.If, c *Term) (done bool) {
 			ex.specEval(fr, in)
 		}
 	}
-	nDec, nPC := ex.dpos, len(ex.pc)
+	nDec, nPC, nAx := ex.dpos, len(ex.pc), ex.axioms
 	evalSide(sT)
 	evalSide(sF)
-	if ex.dpos != nDec || len(ex.pc) != nPC {
+	if ex.dpos != nDec || len(ex.pc)-nPC != ex.axioms-nAx {
 		panic("speculative evaluation consumed decisions")
 	}
 	predT, predF := B, B
